@@ -171,7 +171,7 @@ t.scope(ops_scope)
 
 
 # ------------------------------------------------------------------ set_xmlns_context (stacked): bounded
-t = Target('namespaces.set_xmlns_context', ['C17', 'C11'], F, 'NamespaceMapper.set_xmlns_context', bounded_only=True,
+t = Target('namespaces.set_xmlns_context', ['C17', 'C11', 'C05'], F, 'NamespaceMapper.set_xmlns_context', bounded_only=True,
            note='bounded run-time contract on the real method in stacked mode over generated element trees: after entering a node, '
                 'namespaces = in-scope declarations of the node, R-INV holds, and every in-scope namespace round-trips; '
                 'after leaving a scope the saved pair is restored')
